@@ -30,7 +30,7 @@ ID = "C12"
 LEVEL = "exploration"
 TIERS = {
     "quick": {"runs": 1400, "wall": 70, "run_timeout": 240, "shrink_s": 60, "schedules": 2},
-    "thorough": {"runs": 30000, "wall": 1100, "run_timeout": 400, "shrink_s": 180, "schedules": 3},
+    "thorough": {"runs": 45000, "wall": 1100, "run_timeout": 400, "shrink_s": 180, "schedules": 3},
 }
 RULE = ("case = seeded gamma scenario with a combined dissimilarity (every categorical component, alpha incl. 0, delta_empty != 1) or "
         "(1 in 8) a positional one (TypeError clause); gamma computed canonically, then gamma_cat and gamma_k(c) for every category of "
